@@ -52,12 +52,15 @@ def npl(nalt, ploidy):
 
 def gen_variant(r, max_alt):
     nalt = r.randint(0, max_alt)
+    wide = r.random() < 0.08
+    if wide:
+        nalt = r.randint(9, 16)   # beyond the allele numbers whose genotype index b(b+1)/2+a fits a small integer type
     ploidy = r.choice([1, 2, 2, 2])
     ns = r.randint(1, 4)
     gts = []
     for _ in range(ns):
         k = ploidy if r.random() < 0.85 else r.randint(1, ploidy)
-        row = [(-1 if r.random() < 0.15 else r.randint(0, nalt)) for _ in range(k)] + [-2] * (ploidy - k)
+        row = [(-1 if r.random() < 0.15 else (r.randint(max(0, nalt - 3), nalt) if wide and r.random() < 0.7 else r.randint(0, nalt))) for _ in range(k)] + [-2] * (ploidy - k)
         gts.append(row)
     mode = r.choice(["full", "full", "absent", "all-dot", "some-dot"])
     width = npl(nalt, ploidy)
@@ -186,11 +189,13 @@ def part_b(ctx):
         pos = 10
         for _ in range(r.randint(1, 8)):
             nalt = r.randint(0 if i % 2 else 1, 4)
+            if r.random() < 0.12:
+                nalt = r.randint(11, 14)
             alts = ",".join("CGT"[k % 3] * (k + 1) for k in range(nalt)) or "."
             has_pl = r.random() < 0.8
             cols, tr = [], []
             for s in range(ns):
-                gt = [(None if r.random() < 0.12 else r.randint(0, nalt)) for _ in range(ploidy)]
+                gt = [(None if r.random() < 0.12 else (r.randint(nalt - 2, nalt) if nalt > 10 and r.random() < 0.6 else r.randint(0, nalt))) for _ in range(ploidy)]
                 g = r.choice("/|").join("." if x is None else str(x) for x in gt)
                 pl = None
                 parts = [g]
